@@ -48,6 +48,11 @@ variables (the start iterate counts, as in the solver's own relative test) - the
 User functions (spec/SolverFunctions.tla): registered under a plain name, a math-module name, a usable builtin
 name or another global name of the solver module; called from a simultaneous row, a derived-only row or both;
 the residual / exactness is judged with the function that was registered (it shadows every homonym).
+Caller level (spec action Retry, instance MC_Solver_retry.cfg): SolveStep(k) is called again after it raised,
+with MaxIterations raised or the tolerance loosened; a period is recorded all-or-nothing (invariant
+C02_PeriodAllOrNothing), so the later periods of such a stepping history must satisfy every equation too.
+Histories realised: cap too small then raised (solved on the second attempt), expansive then solved at the
+loosened tolerance, and failures that fail again the same way.
 Readings: which equations are "derived-only" is the solver's own classification (Parser.Decoration
 after reduction); all others only need the residual bound.  Numeric predicates are computed by the
 projection in Fraction arithmetic on the reported floats; the right-hand sides are those submitted.
@@ -76,6 +81,7 @@ def run(rep):
     sk.expect_counterexample(rep, core, 'MC_Solver_asfound.cfg', 'C02_SolvedOnlyIfConverged')
     if rep.tier == 'thorough':
         sk.expect_counterexample(rep, core, 'MC_Solver_asfound3.cfg', 'C02_SolvedOnlyAfterSweep')
+        sk.expect_counterexample(rep, core, 'MC_Solver_seeded_lag.cfg', 'C02_PeriodAllOrNothing')
     behs = sk.tlc_behaviours(rep, core, rep.tier)
     items = [{'case': sk.scenario(b, v), 'behaviour': b} for b in behs if sk.scenario_realisable(b)
              for v in sk.scenario_variants(b)]
